@@ -685,6 +685,11 @@ def fam_uni(tier, seed):
         g.alpha = alpha
         g.extra = [[rnd.choice(alpha + ["\x7f", "\x80", "߿", "ࠀ", "￿", "\U00010000", "\U0010FFFF"])
                     for _ in range(rnd.randint(4, 7))] for _ in range(10 if tier == "quick" else 60)]
+        # long non-ASCII inputs (beyond the model-checking bound, real runs only): every alignment of
+        # multi-byte characters against fixed byte offsets (IndentedTracer previews 50 characters)
+        for k in range(4):
+            g.real_extra.append(list("a" * k + E9 * 40))
+            g.real_extra.append(list("a" * k + DAO * 30 + EMO * 10))
         if well_formed(g):
             out.append(g)
     return out
@@ -723,6 +728,13 @@ def fam_inc(tier, seed):
         Rule("I3", Seq(Inc("I2"), Opt(Inc("I2")))),
         Rule("I4", Call("A", "@")),
         Rule("I5", Seq(Lit("a"), Opt(Lit("b"))), memoize=True),
+        Rule("I6", Seq(Lit("a"), Lit("b")), no_skip_ws=True),
+        Rule("I7", Seq(Lit("a"), Lit("b")), checks=[{"o": "never", "path": "verif_common::oracles::chk_never",
+                                                   "name": "verif_common::oracles::chk_never"}]),
+        Rule("Pair", Seq(Call("A", "x"), Lit(","), Call("A", "y")), no_skip_ws=True),
+        Rule("PairK", Seq(Call("A", "x"), Lit(","), Call("A", "y"))),
+        Rule("New", Inc("Pair")),
+        Rule("NewN", Inc("PairK"), no_skip_ws=True),
         Rule("O", Seq(Lit("("), Inc("I4"), Lit(")"))),
         Rule("A", Lit("a")), Rule("B", Lit("b"), no_skip_ws=True)]
     sites = [
@@ -735,14 +747,22 @@ def fam_inc(tier, seed):
         ("override", Seq(Call("O", "o"), Opt(Call("O", "p")))),
         ("in_neg", Seq(Neg(Seq(Inc("I5"), Lit(","))), Inc("I2"))),
         ("in_pos", Seq(Pos(Inc("I5")), Call("A", "x"))),
+        ("fieldless_in_seq", Seq(Inc("I5"), Lit(","), Inc("I6"), Call("A", "x"))),
+        ("fieldless_in_opt", Seq(Opt(Inc("I6")), Opt(Inc("I5")), Call("B", "z"))),
+        ("fieldless_in_clo", Seq(Clo(Seq(Inc("I6"), Lit(","))), Clo(Inc("I5")))),
+        ("fieldless_in_choice", Choice(Seq(Inc("I6"), Lit(",")), Seq(Inc("I5"), Lit("(")), Inc("I6"))),
+        ("fieldless_with_check", Seq(Inc("I7"), Opt(Seq(Lit(","), Inc("I7"))))),
+        ("sole_include_noskip_target", Seq(Call("New", "n"), Opt(Call("New", "m")))),
+        ("sole_include_skip_target", Seq(Call("NewN", "n"), Opt(Call("NewN", "m")))),
     ]
     out = []
     for name, body in sites:
         for skip in (True, False):
             g = Grammar("inc_%04d" % len(out), [Rule("S", body, export=True, no_skip_ws=not skip, position=True)] + inc_rules(),
                         root="S", maxlen=maxlen, meta={"shape": "%s_%s" % (name, "skip" if skip else "noskip"), "twin": "orig"})
-            g.alpha = ["a", "b", "(", ")", ",", " "] if skip else ["a", "b", "(", ")", ","]
+            g.alpha = ["a", "b", "(", ")", ",", " "]
             g.maxlen = 3 if tier == "quick" else 4
+            add_extras(g, random.Random(seed * 7919 + 90 + len(out)), 12 if tier == "quick" else 60, 4, 8)
             if not well_formed(g):
                 continue
             t = inline(g)
@@ -829,6 +849,25 @@ def fam_user(tier, seed):
                              checks=[{"o": "char_not", "c": "b", "path": "@cchk_notb", "name": "@cchk_notb",
                                       "rust": "pub fn cchk_notb(c: char) -> bool { logged(\"cchk_notb\", &c, c != 'b') }"}])],
        ["a", "b", "1", " "])
+    mk("chk_char_two", [Rule("S", Seq(Call("C", "c"), Opt(Call("C", "d")), Opt(Call("char", "e"))), export=True, no_skip_ws=True),
+                        CharRule("C", [("range", "a", "z"), ("range", "A", "Z"), ("lit", "1")],
+                                 checks=[{"o": "char_in", "lo": "a", "hi": "z", "path": "@cchk_lower", "name": "@cchk_lower",
+                                          "rust": "pub fn cchk_lower(c: char) -> bool { logged(\"cchk_lower\", &c, c.is_ascii_lowercase()) }"},
+                                         {"o": "char_not", "c": "b", "path": "@cchk_notb2", "name": "@cchk_notb2",
+                                          "rust": "pub fn cchk_notb2(c: char) -> bool { logged(\"cchk_notb2\", &c, c != 'b') }"},
+                                         {"o": "always", "path": P + "cchk_always", "name": P + "cchk_always"}])],
+       ["a", "b", "B", "1"])
+    mk("chk_char_first_rejects", [Rule("S", Clo(Choice(Call("C", "c"), Call("D", "d"))), export=True, no_skip_ws=True),
+                                  CharRule("C", [("range", "a", "z")],
+                                           checks=[{"o": "char_not", "c": "a", "path": "@cchk_nota", "name": "@cchk_nota",
+                                                    "rust": "pub fn cchk_nota(c: char) -> bool { logged(\"cchk_nota\", &c, c != 'a') }"},
+                                                   {"o": "char_in", "lo": "a", "hi": "b", "path": "@cchk_ab", "name": "@cchk_ab",
+                                                    "rust": "pub fn cchk_ab(c: char) -> bool { logged(\"cchk_ab\", &c, ('a'..='b').contains(&c)) }"}]),
+                                  CharRule("D", [("lit", "a"), ("lit", "c")])], ["a", "b", "c"])
+    mk("ext_zero_at_end", [Rule("S", Seq(Lit("a"), Call("Z", "z"), Eoi()), export=True, no_skip_ws=True), ext["Z"]], ["a", "b"])
+    mk("ext_zero_ws_end", [Rule("S", Seq(Lit("a"), Call("Z", "z"), Opt(Lit("b"))), export=True), ext["Z"]], ["a", "b", " "])
+    mk("ext_zero_in_clo_end", [Rule("S", Seq(Clo(Seq(Lit("a"), Call("Z", "z"))), Eoi()), export=True), ext["Z"]], ["a", " ", "b"])
+    mk("ext_digits_at_end", [Rule("S", Seq(Clo(Seq(Call("D", "d"), Opt(Lit("a")))), Eoi()), export=True), ext["D"]], ["1", "a", " "])
     out = []
     for name, rules, alpha, _ in shapes:
         gid = "user_%04d" % len(out)
